@@ -835,6 +835,48 @@ class TU:
     def _c_like(self):
         return not self.src.endswith(("++", ".cc", ".cpp", ".cxx"))
 
+    def _checking_helper(self, name, argidx):
+        """is [name] a function defined in this translation unit whose [argidx]-th parameter is tested for NULL with
+        FATAL called on the NULL branch?"""
+        for d in iter_nodes(self.root):
+            if d.get("kind") != "FunctionDecl" or d.get("name") != name:
+                continue
+            body = [c for c in (d.get("inner") or []) if isinstance(c, dict) and c.get("kind") == "CompoundStmt"]
+            params = [c for c in (d.get("inner") or []) if isinstance(c, dict) and c.get("kind") == "ParmVarDecl"]
+            if not body or argidx >= len(params):
+                continue
+            pid = params[argidx].get("id")
+            for x in iter_nodes(body[0]):
+                if x.get("kind") != "IfStmt":
+                    continue
+                parts = [c for c in (x.get("inner") or []) if isinstance(c, dict)]
+                if len(parts) < 2:
+                    continue
+                cond, then = parts[0], parts[1]
+                els = parts[2] if len(parts) > 2 else None
+                c = strip_expr(cond)
+                branch = None
+                ci = (c.get("inner") or []) if isinstance(c, dict) else []
+                def isp(e):
+                    e = strip_expr(e)
+                    return isinstance(e, dict) and e.get("kind") == "DeclRefExpr" and (e.get("referencedDecl") or {}).get("id") == pid
+                if isp(c):
+                    branch = "else"
+                elif isinstance(c, dict) and c.get("kind") == "UnaryOperator" and c.get("opcode") == "!" and ci and isp(ci[0]):
+                    branch = "then"
+                elif isinstance(c, dict) and c.get("kind") == "BinaryOperator" and c.get("opcode") in ("==", "!=") and len(ci) == 2 and \
+                        ((isp(ci[0]) and is_null_const(ci[1])) or (isp(ci[1]) and is_null_const(ci[0]))):
+                    branch = "then" if c.get("opcode") == "==" else "else"
+                target = then if branch == "then" else (els if branch == "else" else None)
+                if target is None:
+                    continue
+                for y in iter_nodes(target):
+                    if y.get("kind") == "CallExpr":
+                        r = callee_ref(y)
+                        if ((r or {}).get("referencedDecl") or {}).get("name") == FATAL:
+                            return True
+        return False
+
     # ---- wrapper check
     def check_wrapper(self, fn):
         """True iff the body contains an allocation whose result lands in a variable v
@@ -869,8 +911,21 @@ class TU:
                 if isinstance(lhs, dict) and lhs.get("kind") == "DeclRefExpr":
                     received.append(((lhs.get("referencedDecl") or {}).get("id"),
                                      order.get(x.get("id"), 0)))
-        if n_alloc == 0 or len(received) != n_alloc:
+        # an allocation whose result is handed straight to a checking helper of this file (a function that tests that
+        # parameter for NULL and calls FATAL on the NULL branch) counts as received-and-guarded
+        n_helper = 0
+        for x in iter_nodes(fn):
+            if x.get("kind") == "CallExpr" and not is_alloc_call(x):
+                args = (x.get("inner") or [])[1:]
+                r = callee_ref(x)
+                nm = ((r or {}).get("referencedDecl") or {}).get("name", "")
+                for ai, a in enumerate(args):
+                    if is_alloc_call(a) and self._checking_helper(nm, ai):
+                        n_helper += 1
+        if n_alloc == 0 or len(received) + n_helper != n_alloc:
             return False
+        if not received:
+            return True
 
         def calls_fatal(x):
             for y in iter_nodes(x):
